@@ -1449,6 +1449,10 @@ impl CanonicalizeContext {
 			let mut mathml = mathml;
 			let children = mathml.children();
 			let n = children.len();
+			if n == 0 {
+				// even the base was removed during cleaning -- nothing is left
+				return Some( CanonicalizeContext::make_empty_element(mathml) );
+			}
 			let i_mprescripts =
 				if let Some((i,_)) = children.iter().enumerate()
 					.find(|(_,&el)| name(&as_element(el)) == "mprescripts") { i } else { n };
